@@ -41,7 +41,9 @@ NilOK(kind, s) == /\ s.param \in {"prep", "exec", "post", "fb"} /\ s.val = 0 /\ 
                   /\ "sty" \in DOMAIN s /\ s.sty \in {"r", "n"} /\ s.form \in {"opt", "bld"}
 \* retries value 4 stands for a budget beyond 32 bits ("retry until it works"): a value like any other
 BigOK(kind, s) == s.param = "retries" /\ s.val = 4 /\ kind = "node"
-StepOK(kind, s) == Offered(kind, s.param, s.form) /\ (s.val \in ValuesOf(s.param) \/ NilOK(kind, s) \/ BigOK(kind, s))
+\* concurrency value 3 stands for a limit of 5000 (on a function node, where the setting is inert and only the getter shows it)
+BigConcOK(kind, s) == s.param = "conc" /\ s.val = 3 /\ kind = "node"
+StepOK(kind, s) == Offered(kind, s.param, s.form) /\ (s.val \in ValuesOf(s.param) \/ NilOK(kind, s) \/ BigOK(kind, s) \/ BigConcOK(kind, s))
 
 \* constructor options come first (in their own order), then everything else in order:
 \* the effective order of a step sequence
